@@ -104,7 +104,17 @@ def run_one(seed, tier, explicit=None):
                 p_ili=rng.choice([0.3, 0.6]), ili_pool=12,
                 p_requires=rng.choice([0.0, 0.5, 1.0]),
                 n_bases=rng.choice([1, 2, 2]), p_second_version=0.0)
-    u = explicit['universe'] if explicit else U.generate(rng, prof)
+    mode = 'full'
+    if explicit:
+        u = explicit['universe']
+        mode = explicit.get('mode', 'full')
+    elif subseed(seed, 'big').random() < 0.06:
+        # a BIG database with a light battery: sums over thousands of addends, exports of
+        # > 1000 synsets, corpora of > 1000 distinct tokens
+        u = U.generate_big(subseed(seed, 'universe-big'), n=1030)
+        mode = 'light'
+    else:
+        u = U.generate(rng, prof)
     prng = subseed(seed, 'plan')
     sim = Sim(u, seed, PROP, [])
     violation = None
@@ -118,6 +128,7 @@ def run_one(seed, tier, explicit=None):
         H, order = explicit['hash_seeds'], explicit['orders']
     try:
         try:
+            sim.oracles = set()
             for r in u['resources']:
                 sim.do({'op': 'add', 'res': r['name']})
             sim.W.restart()
@@ -131,7 +142,7 @@ def run_one(seed, tier, explicit=None):
                 env = dict(os.environ)
                 env['PYTHONHASHSEED'] = h
                 env['PYTHONDONTWRITEBYTECODE'] = '1'
-                p = subprocess.run([sys.executable, BATTERY, REPO, d, out, order[hi]], env=env,
+                p = subprocess.run([sys.executable, BATTERY, REPO, d, out, order[hi], mode], env=env,
                                    capture_output=True, text=True, timeout=100)
                 if p.returncode != 0:
                     raise Violation(PROP, 'battery-crashed', 'battery process failed under '
@@ -176,7 +187,7 @@ def run_one(seed, tier, explicit=None):
             'cells': [], 'evals': evals, 'nt': nt * len(H), 'known_hits': {},
             'nontrivial': bool(nt),
             'sample': {'hash_seeds': H, 'universe': plan_summary(u, [])['lexicons']},
-            'replay': {'universe': u,
+            'replay': {'universe': u, 'mode': mode,
                        'hash_seeds': ([violation['detail']['hashseed_a'],
                                        violation['detail']['hashseed_b']]
                                       if violation and 'hashseed_a' in (violation.get('detail')
